@@ -290,12 +290,12 @@ Fixpoint gcc (fuel : nat) (h : heap) (id : Z) : res unit :=
           | None => ROk tt
           end
       | KCols =>
-          if is_empty n then RErr EIndex else            (* self.contents[self.focus_position] *)
+          if is_empty n then ROk tt else                 (* if not self.contents: return None *)
           match focus_child h id with
           | Some w => if negb (sel f h w) then ROk tt else if has_gcc h w then gcc f h w else ROk tt
           | None => RErr EBad
           end
-      | KGrid => if is_empty n then RErr EAttr else ROk tt    (* the Divider shown for an empty GridFlow has no such method *)
+      | KGrid => ROk tt                                  (* empty: None; else the display widget finds no cursor *)
       | _ => RErr EUnmod
       end
     end
@@ -332,7 +332,7 @@ Fixpoint gpc (fuel : nat) (id : Z) : M pcol :=
          end) ;;;
         n' <- rd id ;; ret (n_pref n')
     | KCols =>                                            (* Columns.get_pref_col *)
-        if is_empty n then raise EIndex else
+        if is_empty n then ret PNone else
         h <- get_heap ;;
         match focus_child h id with
         | None => raise EBad
@@ -346,7 +346,7 @@ Fixpoint gpc (fuel : nat) (id : Z) : M pcol :=
                | c => c end)
         end
     | KGrid =>                                            (* GridFlow.get_pref_col -> display Pile.get_pref_col *)
-        if is_empty n then raise EAttr else
+        if is_empty n then ret PNone else
         h <- get_heap ;;
         if negb (any_sel f h n) then ret PNone else
         ret (match grid_c_gpc f h n with PNone => PInt 0 | p => p end)
@@ -403,7 +403,7 @@ Fixpoint mc (fuel : nat) (id : Z) (col : pcol) (row : Z) : M bool :=
             end
         end
     | KGrid =>                                            (* GridFlow.move_cursor_to_coords through a fresh display widget *)
-        if is_empty n then raise EAttr else
+        if is_empty n then ret false else
         h <- get_heap ;;
         match grid_row_at (grid_rows n) true 0 (n_vs n) row with
         | None => ret false
@@ -437,7 +437,7 @@ Definition lb_set_focus (id : Z) (pos : Z) : M unit :=
   n <- rd id ;;
   if is_empty n then raise EIndex else
   w_pend id (PendSet (nfocus n)) (n_vpend n) ;;;
-  if 100 <=? pos then raise EType else w_listfocus id pos.
+  if 100 <=? pos then raise EIndex else w_listfocus id pos.
 
 (* calculate_visible after the pending part: the cursor query; false = the list box is empty *)
 Definition lb_visible0 (f : nat) (id : Z) (focus : bool) : M bool :=
@@ -488,9 +488,10 @@ Definition lb_complete (f : nat) (id : Z) (focus : bool) : M unit :=
   | PendSet old =>
       w_pend id PendNone false ;;;
       if n_vpend n then ret tt else                       (* _set_focus_valign_complete *)
-      if is_empty n then raise EType else                 (* calculate_visible gives (None, None, None) *)
+      if is_empty n then ret tt else                      (* new_focus_widget is None: do nothing *)
       let position := nfocus n in
       if old =? position then ret tt else
+      if (old <? 0) || (nlen n <=? old) then ret tt else  (* the old position was removed meanwhile: IndexError caught *)
       w_listfocus id old ;;;                              (* restore the old focus temporarily *)
       vis <- lb_visible0 f id focus ;;
       if negb vis then raise EType else
@@ -550,12 +551,12 @@ Fixpoint kp (fuel : nat) (id : Z) (key : list Z) : M kres :=
                 match nthz (items n) fi with Some c => kp f c key | None => raise EBad end
               else unhandled key) ;;
         let k1 := fst r in
-        if n_selc n && negb (is_vert (cmd_of k1)) then ret r else
+        if negb (is_vert (cmd_of k1)) then ret r else
         moved <- pile_move f id (cmd_of k1 =? C_UP)
                    (if cmd_of k1 =? C_UP then range_down fi else range_up (fi + 1) (nlen n)) ;;
         ret (if moved then None else k1, snd r)
     | KCols =>                                            (* Columns.keypress *)
-        if is_empty n then raise EIndex else              (* self.focus_position raises *)
+        if is_empty n then unhandled key else             (* if not self.contents: return key *)
         let fi := nfocus n in
         match nthz (items n) fi with
         | None => raise EBad
